@@ -1,4 +1,5 @@
 """C03 - generated deserializers obey the spec on truncated or hostile bytes (DESIGN 5/C03)."""
+import os
 import sys
 
 from hypothesis import strategies as st
@@ -256,11 +257,61 @@ def cases(draw, n_classes=3, n_seeds=2, n_inputs=5):
     return {"tree": tree, "items": items}
 
 
+def run_atheris(task, res):
+    """Secondary engine (thorough tier): coverage-guided fuzzing of a few drawn trees with the same oracle."""
+    import json
+    import os
+    import re
+    import subprocess
+    import tempfile
+    from vlib.runner import VERIF
+    drawn = []
+    tmp = TaskResult()
+    hyp.campaign(cases(n_classes=3, n_seeds=2, n_inputs=2), lambda c: drawn.append(c), task["trees"] * 3,
+                 task["seed"], tmp, shrink_budget=0)
+    picked = [c for c in drawn if c["items"]][: task["trees"]]
+    base = tempfile.mkdtemp(prefix="c03fuzz_", dir=genpkg.tmpbase())
+    for ti, c in enumerate(picked):
+        an = spec.Analysis(c["tree"])
+        classes = an.classes()
+        seeds = []
+        for it in c["items"]:
+            ci = next(i for i, k in enumerate(classes) if k["path"] == it["cls"])
+            for inp in it["inputs"]:
+                seeds.append({"cls": ci, "mode": int(it["chunked"]), "hex": inp["hex"]})
+        cp = os.path.join(base, f"case{ti}.json")
+        op = os.path.join(base, f"out{ti}.json")
+        json.dump({"tree": c["tree"], "seeds": seeds if task.get("corpus", True) else []}, open(cp, "w"))
+        env = dict(os.environ, PYTHONHASHSEED="0")
+        r = subprocess.run([sys.executable, "-B", os.path.join(VERIF, "vlib", "fuzz_c03.py"), cp,
+                            str(task["runs"]), str(task["seed"] + ti), op], env=env, capture_output=True, text=True)
+        m = re.search(r"Done (\d+) runs", r.stderr)
+        execs = int(m.group(1)) if m else 0
+        out = json.load(open(op)) if os.path.exists(op) else {}
+        if not out.get("usable", True):
+            res.labels["atheris:tree_not_usable"] += 1
+            continue
+        if not m and not out:
+            raise RuntimeError(f"atheris run failed: {r.stderr[-1500:]}")
+        execs = max(execs, out.get("execs", 0))
+        res.labels["atheris:trees"] += 1
+        res.extra["atheris_execs"] = res.extra.get("atheris_execs", 0) + execs
+        res.evaluations += execs
+        if out.get("violation"):
+            v = out["violation"]
+            res.violations.append(v)
+            return
+    return
+
+
 def run_task(task):
     res = TaskResult()
     try:
-        hyp.campaign(cases(), lambda c: check_case(c, res), task["n"], task["seed"], res,
-                     shrink_budget=task.get("shrink", 150))
+        if task.get("kind") == "atheris":
+            run_atheris(task, res)
+        else:
+            hyp.campaign(cases(), lambda c: check_case(c, res), task["n"], task["seed"], res,
+                         shrink_budget=task.get("shrink", 150))
     finally:
         genpkg.cleanup_tmpbase()
     return res
@@ -269,8 +320,13 @@ def run_task(task):
 def plan(tier, seed):
     total = 2000 if tier == "quick" else 25000
     W = 16
-    return [{"n": total // W, "seed": seed * 1000 + w, "shrink": 150 if tier == "quick" else 1500}
-            for w in range(W)]
+    tasks = [{"n": total // W, "seed": seed * 1000 + w, "shrink": 150 if tier == "quick" else 1500}
+             for w in range(W)]
+    if tier == "thorough" and os.path.isdir(os.path.join(os.path.dirname(os.path.dirname(os.path.abspath(__file__))), ".deps", "atheris")):
+        # secondary engine: 16 x 2 trees x 40,000 coverage-guided executions, half with a seed corpus
+        tasks += [{"kind": "atheris", "trees": 2, "runs": 40000, "seed": seed * 1000 + 500 + w, "corpus": w % 2 == 0}
+                  for w in range(W)]
+    return tasks
 
 
 def finalize(m, tier):
